@@ -574,8 +574,9 @@ package internal
 //@   requires storableReq(req)                                                      # name: request-storable
 //@   requires storableResp(resp)                                                    # name: response-storable
 //@   requires refs == indexRead || len(refs) == 0                                   # name: refs-is-the-index-read-in-this-exchange   props: C08
-//@   assigns storeWrites, lastSetOK, lastSetKey, lastRefs, bodyReadFailed, map(resp.Header), resp.Body, now, lastStoredResp, lastStoredReqTime, lastStoredRespTime, lastStoredRefIndex
+//@   assigns storeWrites, lastSetOK, lastSetKey, lastRefs, bodyReadFailed, deletedKeys, map(resp.Header), resp.Body, now, lastStoredResp, lastStoredReqTime, lastStoredRespTime, lastStoredRefIndex
 //@   ensures resp.Header != nil
+//@   ensures forall x string :: old(deletedKeys)[x] ==> deletedKeys[x]             # name: deletions-accumulate
 //@   ensures lastStoredResp == resp && lastStoredReqTime == reqTime && lastStoredRespTime == respTime && lastStoredRefIndex == refIndex     # ghost-update
 //@   ensures storeWrites >= old(storeWrites)                                        # ghost-update
 //@   ensures result == nil ==> len(lastRefs) >= 1 && len(lastRefs) <= len(refs) + 1                                          # name: index-grows-by-at-most-one   props: C19
